@@ -63,7 +63,16 @@ def gen(tier, rng):
             if rest.startswith("DATA") or rest.startswith("DEF"):
                 continue
             p2 = list(prog)
-            p2[j] = "%s %s:%s" % (num, word, rest)
+            where = rng.random()
+            m_if = re.search(r" THEN (?![0-9 ])(.*?) ELSE ", rest)
+            if where < 0.35 and m_if and "REM" not in rest and "'" not in rest:
+                # at the end of a THEN branch that has an ELSE: CONT must continue behind the whole IF, not in the ELSE branch
+                k = m_if.end() - len(" ELSE ")
+                p2[j] = "%s %s:%s%s" % (num, rest[:k], word, rest[k:])
+            elif where < 0.5 and "REM" not in rest and "'" not in rest and " THEN " not in rest and "DATA" not in rest:
+                p2[j] = "%s %s:%s" % (num, rest, word)
+            else:
+                p2[j] = "%s %s:%s" % (num, word, rest)
             calls = base_calls(p2) + [sess.E("RUN"), "R5000"] + answers(inputs, 5000)
             # one conditional CONT per execution of the inserted statement (bounded)
             for _ in range(STOP_CONTS):
@@ -71,6 +80,22 @@ def gen(tier, rng):
             calls += [sess.E(DUMP), "R5000"]
             cases.append(Case(sess.session(calls), sig=key + "\n#%s inserted at line %s" % (word, num), tag="stop-cont",
                               meta=("stop", pi, (word, num))))
+    # STOP at the end of the THEN branch of every one-line IF..THEN..ELSE, and in a few fixed shapes
+    fixed = [["10 A=1", '20 IF A=1 THEN PRINT "T":STOP ELSE PRINT "F":A=5', '30 PRINT "DONE";A'],
+             ["10 A=1", "20 IF A=1 THEN END ELSE A=5", "30 PRINT A"],
+             ["10 FOR I=1 TO 3", '20 IF I=2 THEN PRINT "two":STOP ELSE PRINT "other";I', "30 NEXT I", '40 PRINT "end"'],
+             ["10 A=0", '20 IF A=1 THEN PRINT "T" ELSE PRINT "F":STOP', '30 PRINT "after"'],
+             ["10 A=1", '20 IF A=1 THEN IF A=1 THEN PRINT "TT":STOP ELSE PRINT "TF" ELSE PRINT "F"', '30 PRINT "after"']]
+    pi = nprog
+    for prog in fixed:
+        plain = [l.replace(":STOP", "").replace("THEN END ELSE", "THEN A=A ELSE").replace("STOP ELSE", "A=A ELSE") for l in prog]
+        key = "\n".join(plain)
+        ref = base_calls(plain) + [sess.E("RUN"), "R5000", sess.E(DUMP), "R5000"]
+        cases.append(Case(sess.session(ref), sig=key, tag="reference", meta=("ref", pi, None)))
+        conts = [sess.E("CONT"), "R5000"] if any("THEN END" in l for l in prog) else ["K5000"] * 6      # END stops without ?BREAK
+        calls = base_calls(prog) + [sess.E("RUN"), "R5000"] + conts + [sess.E(DUMP), "R5000"]
+        cases.append(Case(sess.session(calls), sig=key + "\n#with STOP/END: " + " / ".join(prog), tag="stop-cont", meta=("stop", pi, ("STOP", "if"))))
+        pi += 1
     return cases
 
 
